@@ -403,12 +403,166 @@ theorem semaphore_zero_permits_counterexample :
     (srun (sinit 0 [[⟨false, false, false⟩]]) [0, 0, 0]).1.allTerminal = false := semaphore_zero_permits_counterexample'
 
 
+/-! ### Phase 5: get_set-only programs on collision-free keys (ghost-clock refinement) -/
+
+/-- the ghost-clock system refines `St` in both directions: its reachable states project to reachable states of the lock
+protocol, and every reachable state of the lock protocol is the projection of a reachable instrumented state -/
+theorem ghost_refines {idx : Nat → Nat} {progs : List (List (List Instr))} :
+    (∀ g, GReachable idx progs g → Reachable idx progs g.base) ∧
+    (∀ s, Reachable idx progs s → ∃ g, GReachable idx progs g ∧ g.base = s) :=
+  ⟨fun _ h => ghost_projects' h, fun _ h => ghost_lifts' h⟩
+
+/-- the clock invariant of get_set-only programs, for every schedule: a cached key was populated in the past; a caller between
+its miss of `k` and the write lock of `k` missed in the past, later than the populate of every key of its with-stack, and —
+if `k` got cached meanwhile — earlier than the populate of `k` -/
+theorem ghost_invariant {idx : Nat → Nat} {progs : List (List (List Instr))} {g : GSt}
+    (hP : ∀ p ∈ progs, GetSetOnly p = true) (h : GReachable idx progs g) :
+    (∀ k v, g.base.cache k = some v → g.tp k < g.clock) ∧
+    (∀ (j : Nat) (c : Caller), g.base.cs[j]? = some c → ∀ k, c.pc.missKey = some k →
+      g.tm j < g.clock ∧ (∀ k' ∈ c.stack, g.tp k' < g.tm j) ∧ (∀ v, g.base.cache k = some v → g.tm j < g.tp k)) :=
+  ⟨(ginv_reachable hP h).pop, (ginv_reachable hP h).miss⟩
+
+/-- along a wait-for edge whose target waits itself the miss time strictly increases (collision-free keys, no rmv) -/
+theorem ghost_stamps_increase {idx : Nat → Nat} {progs : List (List (List Instr))} {g : GSt}
+    (hcf : CollisionFree idx progs = true) (hP : ∀ p ∈ progs, GetSetOnly p = true) (h : GReachable idx progs g)
+    {i j m : Nat} (hij : waitsFor idx g.base i j = true) (hjm : waitsFor idx g.base j m = true) : gRank g i < gRank g j :=
+  ghost_edge_lt (collisionFree_inj hcf) (keys_reachable progKeys_mem (ghost_projects' h)) (inv_reachable (ghost_projects' h)) (noRmv_reachable hP (ghost_projects' h)) (ginv_reachable hP h) hij hjm
+
+/-- goal 3 of phase 4: programs that only use `get_set` (any nesting, any lock order — also cyclic ones —, getters and bodies
+that raise) on keys without slot collisions (`CollisionFree`: no two different keys of the programs share a slot) never have a cycle in the wait-for graph, in any reachable state of any schedule -/
+theorem no_wait_cycle_getset_only {idx : Nat → Nat} {progs : List (List (List Instr))} {s : St}
+    (hcf : CollisionFree idx progs = true) (hP : ∀ p ∈ progs, GetSetOnly p = true)
+    (h : Reachable idx progs s) (i : Nat) : ¬ WaitPath idx s i i := no_wait_cycle_getset_only' hcf hP h i
+
+/-- … hence no deadlock: while somebody is unfinished some caller has a step that is not a failed lock guard -/
+theorem deadlock_free_getset_only {idx : Nat → Nat} {progs : List (List (List Instr))} {s : St}
+    (hcf : CollisionFree idx progs = true) (hP : ∀ p ∈ progs, GetSetOnly p = true)
+    (h : Reachable idx progs s) (hnt : s.allTerminal = false) :
+    ∃ i ev s', step idx s i = some (ev, s') ∧ ev ≠ .spin := deadlock_free_getset_only_step' hcf hP h hnt
+
+/-- … and under every fair infinite schedule all callers finish -/
+theorem fair_termination_getset_only {idx : Nat → Nat} {progs : List (List (List Instr))}
+    (hcf : CollisionFree idx progs = true) (hP : ∀ p ∈ progs, GetSetOnly p = true)
+    (σ : Nat → Nat) (hfair : FairSched progs.length σ) :
+    ∃ n, ∀ m, n ≤ m → (runN idx (init progs) σ m).allTerminal = true := fair_termination_getset_only' hcf hP σ hfair
+
+/-- non-vacuity: the crossing programs (A `with gs 0: with gs 1`, B `with gs 1: with gs 0`) are get_set-only, have NO
+acyclic static lock order (`deadlock_free_ranked` does not apply for any rank), and the instrumented run finishes / keeps
+its stamps consistent in the state where both have entered their first key and ask for the other one -/
+example : (∀ p ∈ crossProgs, GetSetOnly p = true) ∧ CollisionFree id crossProgs = true ∧ (∀ ord : Nat → Nat, ¬ (∀ p ∈ crossProgs, Hier ord p = true)) ∧
+    (grun id (ginit crossProgs) (List.replicate 11 0 ++ List.replicate 11 1 ++ List.replicate 12 0 ++ List.replicate 12 1)).base.allTerminal = true ∧
+    (grun id (ginit crossProgs) (List.replicate 11 0 ++ List.replicate 11 1 ++ [0, 0, 0, 1, 1, 1])).stampsOK [0, 1] = true := ghost_example'
+
+/-- collision-freeness is necessary (second form of known finding C19-F1; `GetSetOnly` without it): two get_set-only,
+`WellNested` callers on two colliding pairs of keys reach a deadlock with the 2-cycle 0→1→0; with `rmv` the hypothesis
+`GetSetOnly` is necessary by `cross_nesting_counterexample` (no collisions there) -/
+theorem getset_only_collision_counterexample :
+    (∀ p ∈ collProgs, GetSetOnly p = true ∧ WellNested collIdx p = true) ∧ CollisionFree collIdx collProgs = false ∧
+    (run collIdx (init collProgs) collSched).1.deadlocked collIdx = true ∧
+    waitsFor collIdx (run collIdx (init collProgs) collSched).1 0 1 = true ∧
+    waitsFor collIdx (run collIdx (init collProgs) collSched).1 1 0 = true := getset_only_collision_counterexample'
+
+
+/-! ### Phase 5: progress of the file-level (chunked write) system -/
+
+/-- invariant behind writer progress: while a successful getter's entry is being written, its file is open holding a prefix of the
+entry's chunks, or already closed holding all of them -/
+theorem writer_file_invariant {enc : Nat → List Nat} {idx : Nat → Nat} {progs : List (List (List Instr))} {s : DSt}
+    (h : DReachable enc idx progs s) {j : Nat} {c : Caller} {k v : Nat} (hj : s.base.cs[j]? = some c) (hpc : c.pc = .gsPopW k (.ok v)) :
+    (∃ w, s.file k = .opened w ∧ w.isPrefixOf (enc v) = true) ∨ s.file k = .closed (enc v) := winv_reachable h j c k v hj hpc
+
+/-- goal 2: in every reachable state of the file-level system, for every schedule, the writer of an entry (a caller at `gsPopW`)
+has an enabled step that is not a failed guard: the next chunk, the close, the return of the complete entry, or the failure -/
+theorem writer_progress {enc : Nat → List Nat} {idx : Nat → Nat} {progs : List (List (List Instr))} {s : DSt}
+    {i : Nat} {c : Caller} {k : Nat} {g : Getter} (h : DReachable enc idx progs s)
+    (hi : s.base.cs[i]? = some c) (hpc : c.pc = .gsPopW k g) :
+    ∃ a ev s', dstep enc idx s i a = some (ev, s') ∧ (∀ e o, ev = .base e o → e ≠ .spin) := writer_progress' h hi hpc
+
+/-- nobody is ever stuck in the file-level system: every unfinished caller has an enabled action -/
+theorem chunked_no_caller_stuck {enc : Nat → List Nat} {idx : Nat → Nat} {progs : List (List (List Instr))} {s : DSt}
+    {i : Nat} {c : Caller} (h : DReachable enc idx progs s) (hi : s.base.cs[i]? = some c) (hnt : c.terminal = false) :
+    ∃ a ev s', dstep enc idx s i a = some (ev, s') := chunked_no_caller_stuck' h hi hnt
+
+/-- deadlock freedom of the file-level system under an acyclic static lock order (`Hier idx` is `ord = idx`) … -/
+theorem chunked_deadlock_free {enc : Nat → List Nat} {idx ord : Nat → Nat} {progs : List (List (List Instr))} {s : DSt}
+    (hord : ∀ a b, idx a = idx b → ord a = ord b) (hH : ∀ p ∈ progs, Hier ord p = true)
+    (h : DReachable enc idx progs s) (hnt : s.base.allTerminal = false) :
+    ∃ i a ev s', dstep enc idx s i a = some (ev, s') ∧ (∀ e o, ev = .base e o → e ≠ .spin) := chunked_deadlock_free' hord hH h hnt
+
+/-- … and for get_set-only programs on collision-free keys -/
+theorem chunked_deadlock_free_getset_only {enc : Nat → List Nat} {idx : Nat → Nat} {progs : List (List (List Instr))} {s : DSt}
+    (hcf : CollisionFree idx progs = true) (hP : ∀ p ∈ progs, GetSetOnly p = true)
+    (h : DReachable enc idx progs s) (hnt : s.base.allTerminal = false) :
+    ∃ i a ev s', dstep enc idx s i a = some (ev, s') ∧ (∀ e o, ev = .base e o → e ≠ .spin) :=
+  chunked_deadlock_free_getset_only' hcf hP h hnt
+
+/-- variant of the file-level system: a protocol step that is not a failed guard decreases `St.measure`; a chunk / close step
+leaves the protocol state alone and, for a successful getter, strictly decreases what is left to write (`writeLeft` = missing
+chunks + the close).  (A FAILING getter may write any number of chunks before it raises in this model, so termination of the
+file-level system needs the getter to stop eventually — see `chunked_fair_termination_full` in the notes.) -/
+theorem chunked_progress_bounded {enc : Nat → List Nat} {idx : Nat → Nat} {progs : List (List (List Instr))} {s s' : DSt}
+    {i : Nat} {a : DAct} {ev : DEv} (h : DReachable enc idx progs s) (hs : dstep enc idx s i a = some (ev, s')) :
+    (∀ e o, ev = .base e o → e ≠ .spin → s'.base.measure < s.base.measure) ∧
+    (a ≠ .base → s'.base = s.base ∧
+      ∀ c k v, s.base.cs[i]? = some c → c.pc = .gsPopW k (.ok v) → writeLeft enc s' i < writeLeft enc s i) :=
+  chunked_progress_bounded' h hs
+
+/-- non-vacuity: a writer in the middle of its entry (one of two chunks written) — the reader can only spin, the writer moves -/
+example : (dstep chunkEnc id (drun chunkEnc id (dinit chunkProgs) (chunkSched1 ++ [(0, .chunk 1)])).1 0 (.chunk 2)).isSome = true ∧
+    (dstep chunkEnc id (drun chunkEnc id (dinit chunkProgs) (chunkSched1 ++ [(0, .chunk 1)])).1 0 .close).isSome = false ∧
+    ((dstep chunkEnc id (drun chunkEnc id (dinit chunkProgs) (chunkSched1 ++ [(0, .chunk 1)])).1 1 .base).map (·.1)) = some (.base .spin none) := by
+  decide
+
+
 /-- translator obligation (regenerated from the source on every run): the semaphore CobaMultiprocessor installs has the
 permits the model assumes and at least one (so `semaphore_deadlock_free` applies), every slot number a `digestBytes`-byte
 digest can take lies inside the shared lock table, and both equal the model's constants -/
 theorem generated_consts_match :
     Generated.openmlPermits = modelPermits ∧ Generated.digestBytes = modelDigestBytes ∧ Generated.lockTableSize = modelSlots ∧
     256 ^ Generated.digestBytes ≤ Generated.lockTableSize ∧ 1 ≤ Generated.openmlPermits := generated_consts_match'
+
+/-- translator obligation (phase 5, `Generated/C19Protocol.lean` is regenerated from `coba/context/cachers.py` with `ast` on every run):
+along every path of `ConcurrentCacher.get_set` (hit / miss → populate / miss → somebody else populated / getter raises → handler) and
+of `rmv` (absent / removed / inner rmv raises) the source makes exactly the calls, in exactly the order, of the model's `step` run -/
+theorem generated_call_order :
+    (∀ in1 in2 fails, Generated.getSetPath in1 in2 fails = modelGetSetPath in1 in2 fails) ∧
+    (∀ inSelf fails, Generated.rmvPath inSelf fails = modelRmvPath inSelf fails) ∧ Generated.protocolExtracted = true :=
+  generated_call_order'
+
+/-- … and the lock blocks of `stepC` ARE the extracted ones: `_acquire_read_lock` (guard, `_array` and `_locks` updates, else wait),
+`_acquire_write_lock` (guard true / false), `_switch_write_to_read_lock`, `_release_write_lock`, `_release_read_lock` — for all states -/
+theorem generated_lock_blocks (idx : Nat → Nat) (arr : Nat → Int) (cache : Nat → Option Nat)
+    (k : Nat) (g : Getter) (v : Nat) (cur : List Instr) (rest : List (List Instr)) (stack : List Nat) (book : Nat → Int) (tn : Bool) :
+    stepC idx arr cache ⟨.gsAcqR k g, cur, rest, stack, book, tn⟩ =
+      (if guardHolds Generated.acqReadGuard (arr (idx k)) then
+        some (.acqR k, upd arr (idx k) (applyUpd Generated.acqReadArray (arr (idx k))), cache,
+              ⟨.gsChk1 k g, cur, rest, stack, upd book k (applyUpd Generated.acqReadLocks (book k)), tn⟩)
+       else some (.spin, arr, cache, ⟨.gsAcqR k g, cur, rest, stack, book, tn⟩)) ∧
+    (guardHolds Generated.acqWriteGuard (arr (idx k)) = true →
+      stepC idx arr cache ⟨.gsAcqW k g, cur, rest, stack, book, tn⟩ =
+        some (.acqW k, upd arr (idx k) (applyUpd Generated.acqWriteArray (arr (idx k))), cache,
+              ⟨.gsChk2 k g, cur, rest, stack, upd book k (applyUpd Generated.acqWriteLocks (book k)), tn⟩)) ∧
+    (guardHolds Generated.acqWriteGuard (arr (idx k)) = false → tn = false →
+      stepC idx arr cache ⟨.gsAcqW k g, cur, rest, stack, book, tn⟩ = some (.spin, arr, cache, ⟨.gsAcqW k g, cur, rest, stack, book, tn⟩)) ∧
+    stepC idx arr cache ⟨.gsSwB k v, cur, rest, stack, book, tn⟩ =
+      some (.sw k, upd arr (idx k) (applyUpd Generated.switchArray (arr (idx k))), cache,
+            ⟨.gsEnter k v, cur, rest, stack, upd book k (applyUpd Generated.switchLocks (book k)), tn⟩) ∧
+    stepC idx arr cache ⟨.rmRelW k, cur, rest, stack, book, tn⟩ =
+      some (.relW k, upd arr (idx k) (applyUpd Generated.relWriteArray (arr (idx k))), cache,
+            ⟨.idle, cur, rest, stack, upd book k (applyUpd Generated.relWriteLocks (book k)), tn⟩) ∧
+    stepC idx arr cache ⟨.exRel, cur, rest, k :: stack, book, tn⟩ =
+      some (.relR k, upd arr (idx k) (applyUpd Generated.relReadArray (arr (idx k))), cache,
+            ⟨.idle, cur, rest, stack, upd book k (applyUpd Generated.relReadLocks (book k)), tn⟩) :=
+  generated_lock_blocks' idx arr cache k g v cur rest stack book tn
+
+
+/-- translator obligation (round h): the file of an entry is named by the key ITSELF (`f"{key}.gz"`) and the lock slot is the hash of
+`str(key)` — the two sites agree on key identity, which is what lets the model index files (`DSt.file`) and locks by the same keys.
+A normalising file name (`key.strip()`, `key.lower()`, …) breaks this obligation (and is caught by the twin-key runs). -/
+theorem generated_key_identity :
+    Generated.cacheNameKeyExpr = modelCacheNameKeyExpr ∧ Generated.cacheNameSuffix = modelCacheNameSuffix ∧
+    Generated.indexKeyExpr = modelIndexKeyExpr := generated_key_identity'
+
 
 /-- … hence for the library's own semaphore: never more than its 3 permits are held, and nobody waits forever -/
 theorem semaphore_library_instance {progs : List (List SRead)} {s : SSt} (h : SReachable Generated.openmlPermits progs s) :
